@@ -24,6 +24,8 @@ def classify(w):
     d = w.get("data") or {}
     if w.get("kind") == "bare-cr-or-lf-in-literal" and d.get("where") == "multipart-preamble":
         return "C16-bare-lf-in-multipart-preamble"
+    if w.get("kind") == "bare-cr-or-lf-in-literal" and d.get("where") == "unencodable-header-fallback":
+        return "C16-bare-lf-in-raw-fallback-of-unencodable-message"
     return None
 
 
